@@ -24,7 +24,8 @@ pub fn build(case: &Value) -> Built {
     let place = case["place"].as_str().unwrap();
     let pt = plaintext(case["len"].as_str().unwrap());
     let user: &[u8] = if case["pwrel"] == "empty-user" { b"" } else { b"userpw" };
-    let h = Handler::new(var, user, b"ownerpw", -3904, ID0, enc_meta);
+    let mut h = Handler::new(var, user, b"ownerpw", -3904, ID0, enc_meta);
+    h.dict_form = case["dform"].as_str().unwrap_or("plain").to_string();
     let (tid, tgen) = match case["idc"].as_str().unwrap() { "low" => (3u64, 0u64), "gen" => (4, 5), _ => (70000, 0) };
     let root_objstm = case["root"] == "objstm";
     let use_xref_stream = place == "string-in-objstm" || place == "xref-stream" || root_objstm;
@@ -51,7 +52,8 @@ pub fn build(case: &Value) -> Built {
     }
     // metadata stream (object 5): encrypted unless EncryptMetadata is false
     let meta_pt: Vec<u8> = if place == "metadata-stream" { pt.clone() } else { b"<x:xmpmeta/>".to_vec() };
-    let meta = if enc_meta { h.encrypt(5, 0, &meta_pt) } else { meta_pt.clone() };
+    // EncryptMetadata false is meaningful from V 4 on; below, the metadata stream is encrypted like any other
+    let meta = if enc_meta || h.var.v < 4 { h.encrypt(5, 0, &meta_pt) } else { meta_pt.clone() };
     let o = d.stream(5, 0, "/Type /Metadata /Subtype /XML", &meta, None, false);
     e.push((5, XEntry::InUse { off: o, gen: 0 }));
     // baseline string object 9
